@@ -11,7 +11,7 @@ RULE = ('case = (solver, cost, monitor kinds, termination, program of 3-11 API o
 ASSUMPTIONS = ['monitors are initially empty; SetGenerationMonitor is exercised with new=False (history kept)',
                'costs are finite (a cost returning inf is run as a separate class for DE2\'s documented counting shortcut)',
                'in-process map only']
-CLASSES = {'programs': {'quick': 3200, 'thorough': 24000}, 'de2_inf_cost': {'quick': 96, 'thorough': 900}, 'solve_through_collapse': {'quick': 160, 'thorough': 2400}}
+CLASSES = {'programs': {'quick': 6400, 'thorough': 32000}, 'de2_inf_cost': {'quick': 192, 'thorough': 960}, 'solve_through_collapse': {'quick': 320, 'thorough': 2400}}
 MIN_EVENTS = {'quick': {'assert:c04': 15000, 'iterations': 1500, 'api_calls': 2000}}
 CASE_TIMEOUT = 120
 
